@@ -288,7 +288,8 @@ async def sc_service(loop: Any, env: Env) -> None:
             for b in ov["bootstrappers"]:
                 b["init"] = {"ip_addresses": [list(nodes[(i + 1) % 3].address)], "dns_addresses": [],
                              "bootstrap_timeout": 5.0}
-        inst = IPv8(cfg, endpoint_override=nd.endpoint)
+        # variants 3..5: the same with the statistics wrapper around the endpoint (IPv8(..., enable_statistics=True))
+        inst = IPv8(cfg, endpoint_override=nd.endpoint, enable_statistics=getattr(env, "variant", 0) >= 3)
         nd.overlays = list(inst.overlays)
         for ov in inst.overlays:
             ov.my_estimated_wan = nd.address
@@ -414,6 +415,9 @@ SCENARIOS: dict[str, Callable] = {
     "service0": sc_service,
     "service1": sc_service,
     "service2": sc_service,
+    "service3": sc_service,
+    "service4": sc_service,
+    "service5": sc_service,
     "pex": sc_pex,
     "identity": sc_identity,
     "attestation": sc_attestation,
@@ -421,7 +425,7 @@ SCENARIOS: dict[str, Callable] = {
 
 
 # scenarios used as traffic corpus by C01 / C03 (the three service variants produce the same kinds of datagrams)
-CORPUS_SCENARIOS = [n for n in SCENARIOS if n not in ("service1", "service2")]
+CORPUS_SCENARIOS = [n for n in SCENARIOS if n not in ("service1", "service2", "service3", "service4", "service5")]
 
 
 async def run_scenario(loop: Any, name: str, env: Env | None = None) -> Env:
